@@ -435,11 +435,22 @@ func runC20(hn string, steps []c20Step, at int, fault string) (issues []string, 
 	if err != nil {
 		st.issues = append(st.issues, "restart: dial failed: "+err.Error())
 	} else {
-		c.send("subscribe.test.y", "")
+		rmark := w.MQ.LogLen()
+		c.send("subscribe.test.m", "")
 		if !c.waitFrames(1) {
 			st.issues = append(st.issues, "restart: no response to subscribe after restart")
-		} else if !strings.Contains(c.frames[0], `"test.y"`) {
+		} else if !strings.Contains(c.frames[0], `"test.m"`) {
 			st.issues = append(st.issues, "restart: unexpected subscribe response "+c.frames[0])
+		}
+		// the restarted gateway must not serve from the cache of the previous run
+		seen := map[string]bool{}
+		for _, r := range w.MQ.RawLog(rmark) {
+			seen[r.Kind+" "+r.Subject] = true
+		}
+		for _, want := range []string{"SUB event.test.m", "REQ get.test.m", "REQ get.test.x"} {
+			if !seen[want] {
+				st.issues = append(st.issues, "stale-cache-after-restart: after Stop and Start, subscribe.test.m was served without "+want)
+			}
 		}
 	}
 	ch2 := w.Serv.StopChannel()
